@@ -207,20 +207,20 @@ def run(ctx):
     # E1 ------------------------------------------------------------------------------------------
     vac = ('BulkPushSteal', 'Finished')
     if thorough:
-        ctx.check_model(SPEC, 'MCNested.tla', 'MC_cover.cfg', WHAT, workers=4, extra=nogen, vacuity_exempt=VAC_SMALL,
+        ctx.check_model(SPEC, 'MCNested.tla', 'MC_nest_cover.cfg', WHAT, workers=4, extra=nogen, vacuity_exempt=VAC_SMALL,
                         label='cross-wait program, 1 worker, repaired waiters: no starved state, <>AllDone under WF')
-        ctx.check_model(SPEC, 'MCNested.tla', 'MC_live.cfg', WHAT, workers=4, extra=nogen, vacuity_exempt=vac, timeout=3000,
+        ctx.check_model(SPEC, 'MCNested.tla', 'MC_nest_live.cfg', WHAT, workers=4, extra=nogen, vacuity_exempt=vac, timeout=3000,
                         label='quick matrix with <>AllDone under per-thread weak fairness')
-    ctx.check_model(SPEC, 'MCNested.tla', 'MC_thorough.cfg' if thorough else 'MC_quick.cfg', WHAT, workers=4, extra=nogen,
+    ctx.check_model(SPEC, 'MCNested.tla', 'MC_nest_thorough.cfg' if thorough else 'MC_nest_quick.cfg', WHAT, workers=4, extra=nogen,
                     vacuity_exempt=vac, timeout=3000,
                     label='program library x pools 0..%d, repaired waiters: no starved state' % (3 if thorough else 2))
-    neg = ctx.tlc(SPEC, 'MCNested.tla', 'MC_nofix_all.cfg' if thorough else 'MC_cross_nofix.cfg', workers=4, extra=nogen,
+    neg = ctx.tlc(SPEC, 'MCNested.tla', 'MC_nest_nofix_all.cfg' if thorough else 'MC_nest_cross_nofix.cfg', workers=4, extra=nogen,
                   label='negative control: original waiters (central queue + locality rings only) must starve', count=False)
     if neg.violation not in ('Invariant NoStarvation', 'Deadlock'):
         raise vlib.ToolError('negative control did not fail: the model with the original waiters no longer starves (%s)' % neg.violation)
     ctx.sample({'negative_control_counterexample': neg.counterexample()[:1200]})
     if thorough:
-        ctx.check_model(SPEC, 'MCNested.tla', 'MC_nofix_forkjoin.cfg', WHAT, workers=4, extra=nogen, vacuity_exempt=vac,
+        ctx.check_model(SPEC, 'MCNested.tla', 'MC_nest_nofix_forkjoin.cfg', WHAT, workers=4, extra=nogen, vacuity_exempt=vac,
                         timeout=3000, label='own-children fork-join / futures / loops terminate even with the original waiters')
 
     # E4 + E3 -------------------------------------------------------------------------------------
@@ -240,7 +240,7 @@ def run(ctx):
     ctx.sample({'random_programs': gen[:4], 'directed': DIRECTED[:2]})
 
     # the open finding (stack inversion): model and real code, reported under its own signature ------
-    inv = ctx.tlc(SPEC, 'MCNested.tla', 'MC_inversion.cfg', workers=4, extra=nogen, count=False,
+    inv = ctx.tlc(SPEC, 'MCNested.tla', 'MC_nest_inversion.cfg', workers=4, extra=nogen, count=False,
                   label='stack inversion programs (a waiter steals a task that blocks on work suspended beneath it)')
     if inv.violation in ('Invariant NoStarvation', 'Deadlock'):
         hit = 0
@@ -259,7 +259,7 @@ def run(ctx):
             ctx.violation('inversion:stack', WHAT + ': stack inversion - a thread inside wait() steals a task that waits on work '
                           'suspended beneath it on the same stack; the acyclic program never completes', path)
     elif inv.violation:
-        raise vlib.ToolError('MC_inversion: unexpected %s' % inv.violation)
+        raise vlib.ToolError('MC_nest_inversion: unexpected %s' % inv.violation)
     ctx.assumptions += [
         'the pool is modelled by its tiers (central queue, locality rings, steal rings) and by who polls which tier; '
         'FIFO order inside a tier, the lossy central-queue hint and the spin counters are abstracted (failed polls are stutter steps)',
@@ -270,7 +270,7 @@ def run(ctx):
         'spin constants compiled small (pool_common.TUNE), steal-ring sharing 2, wake group size 2; sequentially consistent interleavings',
         'a waiting parallel_for is run with at most (threads + 1) items so that every chunk is one item',
         'random programs exclude the stack-inversion shapes (a task waiting on a set whose tasks wait themselves; a task getting a '
-        'future whose body waits): those are the open finding, probed separately (MC_inversion.cfg + directed runs)',
+        'future whose body waits): those are the open finding, probed separately (MC_nest_inversion.cfg + directed runs)',
     ]
 
 
